@@ -102,6 +102,148 @@ pub fn arb_planted_program(cfg: AstCfg) -> BoxedStrategy<Program> {
         .boxed()
 }
 
+// ---------------------------------------------------------------------------------------------
+// type-directed programs: evaluate to a value most of the time
+// ---------------------------------------------------------------------------------------------
+
+#[derive(Clone, Copy, Debug, PartialEq)]
+pub enum T {
+    Int,
+    Float,
+    Bool,
+    Str,
+    Tuple,
+    Empty,
+}
+
+/// Variables of the typed context: i, j: Int; p: Float; s: Str; t: Bool; u: Tuple.
+pub fn typed_ctx() -> Ctx {
+    use refmodel::interp::UF;
+    use refmodel::value::RV;
+    let mut c = Ctx::new(Kind::HashMap);
+    c.vars.insert("i".into(), RV::Int(3));
+    c.vars.insert("j".into(), RV::Int(-7));
+    c.vars.insert("p".into(), RV::Float(2.5));
+    c.vars.insert("s".into(), RV::Str("äb c".into()));
+    c.vars.insert("t".into(), RV::Bool(true));
+    c.vars.insert("u".into(), RV::Tuple(vec![RV::Int(1), RV::Str("x".into())]));
+    c.funcs.insert("f".into(), UF::Identity);
+    c.funcs.insert("g".into(), UF::IntPlus5);
+    c
+}
+
+fn b(a: Ast) -> Box<Ast> {
+    Box::new(a)
+}
+
+/// An expression of static type `ty` over the typed context (assignments keep the variable's
+/// type, so they succeed in a mutable context).
+pub fn arb_typed(ty: T, depth: u32) -> BoxedStrategy<Ast> {
+    use refmodel::ast::{AssignOp, BinOp};
+    use refmodel::value::RV;
+    let leaf: BoxedStrategy<Ast> = match ty {
+        T::Int => prop_oneof![(0i64..100).prop_map(|i| Ast::Lit(RV::Int(i))), Just(Ast::Var("i".into())), Just(Ast::Var("j".into()))].boxed(),
+        T::Float => prop_oneof![
+            proptest::sample::select(vec![0.5f64, 1.5, 2.0, 1e-3, 3e10]).prop_map(|f| Ast::Lit(RV::Float(f))),
+            Just(Ast::Var("p".into()))
+        ]
+        .boxed(),
+        T::Bool => prop_oneof![any::<bool>().prop_map(|x| Ast::Lit(RV::Bool(x))), Just(Ast::Var("t".into()))].boxed(),
+        T::Str => prop_oneof![
+            proptest::sample::select(vec!["", "a", "äb", "x y"]).prop_map(|x| Ast::Lit(RV::Str(x.to_string()))),
+            Just(Ast::Var("s".into()))
+        ]
+        .boxed(),
+        T::Tuple => Just(Ast::Var("u".into())).boxed(),
+        T::Empty => Just(Ast::Empty).boxed(),
+    };
+    if depth == 0 {
+        return leaf;
+    }
+    let d = depth - 1;
+    let sub = move |t: T| arb_typed(t, d);
+    let any_ty = || proptest::sample::select(vec![T::Int, T::Float, T::Bool, T::Str, T::Tuple, T::Empty]);
+    let rec: BoxedStrategy<Ast> = match ty {
+        T::Int => prop_oneof![
+            4 => (proptest::sample::select(vec![BinOp::Add, BinOp::Sub, BinOp::Mul]), sub(T::Int), sub(T::Int)).prop_map(|(o, x, y)| Ast::Bin(o, b(x), b(y))),
+            1 => (sub(T::Int), 1i64..9).prop_map(|(x, k)| Ast::Bin(BinOp::Div, b(x), b(Ast::Lit(RV::Int(k))))),
+            1 => (sub(T::Int), 1i64..9).prop_map(|(x, k)| Ast::Bin(BinOp::Mod, b(x), b(Ast::Lit(RV::Int(k))))),
+            1 => sub(T::Int).prop_map(|x| Ast::Neg(b(x))),
+            1 => sub(T::Str).prop_map(|x| Ast::Call("len".into(), b(x))),
+            1 => sub(T::Int).prop_map(|x| Ast::Call("math::abs".into(), b(x))),
+            1 => sub(T::Int).prop_map(|x| Ast::Call("g".into(), b(x))),
+            1 => (sub(T::Bool), sub(T::Int), sub(T::Int)).prop_map(|(c, x, y)| Ast::Call("if".into(), b(Ast::Tuple(vec![c, x, y])))),
+            1 => (sub(T::Int), sub(T::Int)).prop_map(|(x, y)| Ast::Call("min".into(), b(Ast::Tuple(vec![x, y])))),
+            2 => (proptest::sample::select(vec![AssignOp::Set, AssignOp::Add, AssignOp::Mul]), sub(T::Int))
+                .prop_map(|(o, x)| Ast::Chain(vec![Ast::Assign(o, "i".into(), b(x)), Ast::Var("i".into())])),
+        ]
+        .boxed(),
+        T::Float => prop_oneof![
+            3 => (proptest::sample::select(vec![BinOp::Add, BinOp::Sub, BinOp::Mul, BinOp::Div, BinOp::Exp]), sub(T::Float), sub(T::Float))
+                .prop_map(|(o, x, y)| Ast::Bin(o, b(x), b(y))),
+            2 => (sub(T::Int), sub(T::Float)).prop_map(|(x, y)| Ast::Bin(BinOp::Add, b(x), b(y))),
+            1 => (sub(T::Int), sub(T::Int)).prop_map(|(x, y)| Ast::Bin(BinOp::Exp, b(x), b(y))),
+            1 => sub(T::Float).prop_map(|x| Ast::Call("math::sqrt".into(), b(x))),
+            1 => sub(T::Int).prop_map(|x| Ast::Call("floor".into(), b(x))),
+            1 => sub(T::Float).prop_map(|x| Ast::Chain(vec![Ast::Assign(AssignOp::Set, "p".into(), b(x)), Ast::Var("p".into())])),
+        ]
+        .boxed(),
+        T::Bool => prop_oneof![
+            3 => (proptest::sample::select(vec![BinOp::Lt, BinOp::Geq, BinOp::Eq, BinOp::Neq]), sub(T::Int), sub(T::Int)).prop_map(|(o, x, y)| Ast::Bin(o, b(x), b(y))),
+            2 => (proptest::sample::select(vec![BinOp::And, BinOp::Or]), sub(T::Bool), sub(T::Bool)).prop_map(|(o, x, y)| Ast::Bin(o, b(x), b(y))),
+            1 => sub(T::Bool).prop_map(|x| Ast::Not(b(x))),
+            1 => (sub(T::Str), sub(T::Str)).prop_map(|(x, y)| Ast::Bin(BinOp::Leq, b(x), b(y))),
+            1 => (sub(T::Tuple), sub(T::Int)).prop_map(|(x, y)| Ast::Call("contains".into(), b(Ast::Tuple(vec![x, y])))),
+            1 => (any_ty(), any_ty()).prop_flat_map(move |(t1, t2)| (arb_typed(t1, d), arb_typed(t2, d))).prop_map(|(x, y)| Ast::Bin(BinOp::Eq, b(x), b(y))),
+        ]
+        .boxed(),
+        T::Str => prop_oneof![
+            3 => (sub(T::Str), sub(T::Str)).prop_map(|(x, y)| Ast::Bin(BinOp::Add, b(x), b(y))),
+            2 => any_ty().prop_flat_map(move |t| arb_typed(t, d)).prop_map(|x| Ast::Call("str::from".into(), b(x))),
+            1 => any_ty().prop_flat_map(move |t| arb_typed(t, d)).prop_map(|x| Ast::Call("typeof".into(), b(x))),
+            1 => sub(T::Str).prop_map(|x| Ast::Call("str::to_uppercase".into(), b(x))),
+            1 => sub(T::Str).prop_map(|x| Ast::Chain(vec![Ast::Assign(AssignOp::Add, "s".into(), b(x)), Ast::Var("s".into())])),
+        ]
+        .boxed(),
+        T::Tuple => prop_oneof![
+            3 => proptest::collection::vec(any_ty().prop_flat_map(move |t| arb_typed(t, d)), 2..4).prop_map(Ast::Tuple),
+            1 => sub(T::Tuple).prop_map(|x| Ast::Call("f".into(), b(x))),
+        ]
+        .boxed(),
+        T::Empty => prop_oneof![
+            2 => (sub(T::Int)).prop_map(|x| Ast::Assign(AssignOp::Set, "i".into(), b(x))),
+            1 => (sub(T::Bool)).prop_map(|x| Ast::Assign(AssignOp::And, "t".into(), b(x))),
+            1 => any_ty().prop_flat_map(move |t| arb_typed(t, d)).prop_map(|x| Ast::Chain(vec![x, Ast::Empty])),
+        ]
+        .boxed(),
+    };
+    prop_oneof![1 => leaf, 4 => rec].boxed()
+}
+
+/// Typed programs rendered to source over the typed context (with small random perturbations of
+/// the context so that not every run sees the same values).
+pub fn arb_typed_program(depth: u32) -> BoxedStrategy<Program> {
+    (
+        proptest::sample::select(vec![T::Int, T::Float, T::Bool, T::Str, T::Tuple, T::Empty]),
+        gen::arb_bits(),
+        0u8..3,
+        -5i64..50,
+        any::<bool>(),
+    )
+        .prop_flat_map(move |(ty, bits, style, iv, disabled_f)| {
+            arb_typed(ty, depth).prop_map(move |ast| {
+                let toks = render_tokens(&ast, &mut BitChoices::new(&bits));
+                let mut ctx = typed_ctx();
+                ctx.vars.insert("i".into(), refmodel::value::RV::Int(iv));
+                if disabled_f {
+                    ctx.funcs.remove("f");
+                }
+                Program { family: "typed", src: render_style(&toks, style), ast: Some(ast), ctx }
+            })
+        })
+        .boxed()
+}
+
 /// The mixture used by C01 / C12 / C16.
 pub fn arb_program(depth: u32) -> BoxedStrategy<Program> {
     let mut cfg = AstCfg::structural(depth);
@@ -109,7 +251,8 @@ pub fn arb_program(depth: u32) -> BoxedStrategy<Program> {
     cfg.funcs = names(&["f", "g", "min", "str::from", "len", "math::abs", "str::substring", "shl", "typeof", "if"]);
     cfg.rich_literals = true;
     prop_oneof![
-        5 => arb_ast_program(cfg.clone()),
+        4 => arb_ast_program(cfg.clone()),
+        4 => arb_typed_program(depth.min(4)),
         2 => arb_soup_program(14),
         2 => arb_raw_program(12),
         1 => arb_planted_program(cfg),
